@@ -3,6 +3,10 @@ import Model.C14.Descsum
 import Model.C14.Descriptor
 import Model.C14.Scan
 import Model.C14.Multipath
+import Model.C14.Derive
+import Model.C14.Wallet
+import Model.C07.Instance
+import Model.Common.Sha256
 import Generated.Descsum
 import Generated.Descriptor
 open Btc
@@ -98,6 +102,51 @@ def segsOut (l : List (List Char)) : String := ";".intercalate (l.map cpsOut)
 def rows? (s : String) : Option (List (List Nat)) :=
   (s.splitOn ";").mapM fun r => if r == "-" then some [] else nats? r
 
+/-- the executable environment: secp256k1 through the shared transcription of btclib's arithmetic (C01),
+    the BIP32 instance of C07, SHA-256 / tagged hash / HASH256 of the shared layer. -/
+def env : Desc.DEnv EC.Point :=
+  { bip := Bip32.secpEnv, sha256 := sha256, tag := taggedHash, hash256 := hash256 }
+
+/-- `pub=prv;pub=prv` (texts as code points), `_` empty -/
+def prv? (s : String) : Option Desc.PrvKeys :=
+  if s == "_" then some [] else
+  (s.splitOn ";").mapM fun e =>
+    match e.splitOn "=" with
+    | [a, b] => do pure ((← cps? a), (← cps? b))
+    | _ => none
+
+def scriptsOut (net : String) (l : List Bytes) : String :=
+  ";".intercalate (l.map toHex) ++ " | " ++ ";".intercalate (l.map fun s =>
+    match Address.address hash256 s net with
+    | .ok a => if a.isEmpty then "-" else cpsOut (a.map Char.ofNat)
+    | .error _ => "!")
+
+def keyType? : String → Option Desc.KeyScriptType
+  | "p2pkh" => some .p2pkh | "p2wpkh-p2sh" => some .p2wpkhP2sh | "p2wpkh" => some .p2wpkh | "p2tr" => some .p2tr
+  | _ => none
+
+def embed? : String → Option Desc.EmbedType
+  | "p2sh" => some .p2sh | "p2wsh" => some .p2wsh | "p2sh-p2wsh" => some .p2shP2wsh | _ => none
+
+def order? : String → Option Desc.KeyOrder
+  | "none" => some .none | "account" => some .account | "derived" => some .derived | _ => none
+
+/-- template: commands separated by `;`: `b:<hex>` | `g:<k>:<verify 0/1>:<xkey text>+<xkey text>…` -/
+def tmpl? (s : String) : Option (List Desc.Cmd) :=
+  (s.splitOn ";").mapM fun c =>
+    match c.splitOn ":" with
+    | ["b", h] => (fromHex? h).map .bytes
+    | ["g", k, v, keys] => do
+      let k ← k.toNat?
+      let v ← bool? v
+      let ks ← (keys.splitOn "+").mapM fun t => (cps? t).bind (Desc.decodeXkey env)
+      pure (.group { threshold := k, keys := ks, verify := v })
+    | _ => none
+
+def posOut : Option (Nat × Nat) → String
+  | some (b, i) => s!"ok {b} {i}"
+  | none => "ok None"
+
 def handle : List String → String
   | "gen" :: "Descsum" :: fn :: args => (Gen.Descsum.dispatch fn args).getD "bad-op"
   | "gen" :: "Descriptor" :: fn :: args => (Gen.Descriptor.dispatch fn args).getD "bad-op"
@@ -164,6 +213,48 @@ def handle : List String → String
       | some l => "ok " ++ segsOut l
       | none => "err value"
     | none => "bad-op"
+  | ["desc.spk", tbl, prv, txt, idx, net] =>
+    match table? tbl, prv? prv, cps? txt, idx.toNat? with
+    | some tb, some pk, some t, some i =>
+      match Desc.parse tb.oracle t with
+      | .ok d =>
+        (match Desc.scriptPubKeys env net pk d i with
+         | some l => "ok " ++ scriptsOut (Desc.descNetwork env net d) l
+         | none => "err value")
+      | .error .value => "err value"
+      | .error .unsupported => "unsupported"
+    | _, _, _, _ => "bad-op"
+  | ["w.bip32", st, xk, b, i] =>
+    match keyType? st, (cps? xk).bind (Desc.decodeXkey env), b.toNat?, i.toNat? with
+    | some st, some x, some b, some i =>
+      (match Desc.bip32WalletSpk env st x b i with | some s => "ok " ++ toHex s | none => "err value")
+    | _, _, _, _ => "bad-op"
+  | ["w.bip32.pos", st, xk, last, q] =>
+    match keyType? st, (cps? xk).bind (Desc.decodeXkey env), last.toNat?, fromHex? q with
+    | some st, some x, some last, some q =>
+      posOut (Desc.walletPositionOf (Desc.bip32WalletSpk env st x) [0, 1] q last)
+    | _, _, _, _ => "bad-op"
+  | ["w.key", st, sec] =>
+    match keyType? st, fromHex? sec with
+    | some st, some sec => (match Desc.keyScript env st sec with | some s => "ok " ++ toHex s | none => "err value")
+    | _, _ => "bad-op"
+  | ["w.script", et, ord, tm, b, i] =>
+    match embed? et, order? ord, tmpl? tm, b.toNat?, i.toNat? with
+    | some et, some ord, some tm, some b, some i =>
+      (match Desc.scriptWalletSpk env et ord tm b i with | some s => "ok " ++ toHex s | none => "err value")
+    | _, _, _, _, _ => "bad-op"
+  | ["w.script.pos", et, ord, tm, last, q] =>
+    match embed? et, order? ord, tmpl? tm, last.toNat?, fromHex? q with
+    | some et, some ord, some tm, some last, some q =>
+      posOut (Desc.walletPositionOf (Desc.scriptWalletSpk env et ord tm) [0, 1] q last)
+    | _, _, _, _, _ => "bad-op"
+  | ["w.desc.pos", tbl, prv, net, last, q, txts] =>
+    match table? tbl, prv? prv, last.toNat?, fromHex? q, (txts.splitOn ";").mapM cps? with
+    | some tb, some pk, some last, some q, some ts =>
+      match ts.mapM fun t => (match Desc.parse tb.oracle t with | .ok d => some d | .error _ => none) with
+      | some ds => posOut (Desc.descWalletPositionOf env net pk ds q last)
+      | none => "unsupported"
+    | _, _, _, _, _ => "bad-op"
   | ["scan.index", ranged, last, query, rows] =>
     match bool? ranged, last.toNat?, query.toNat?, rows? rows with
     | some rg, some last, some q, some rows =>
